@@ -70,6 +70,8 @@ pub enum Op {
     Ref,
     /// `Ext(W(a))` where `W::parse = inp.parse(&a)` and `W::check = inp.check(&a)` (separate check path)
     ExtWrap,
+    /// `a.nested_in(b.to_slice())`: kids = [a, b]; `a` must match exactly the input consumed by `b`
+    NestedIn,
 }
 
 pub const ALL_OPS: &[Op] = &[
@@ -79,7 +81,7 @@ pub const ALL_OPS: &[Op] = &[
     Op::Filter, Op::TryMap, Op::TryMapWith, Op::ToSlice, Op::ToSpan, Op::Rep, Op::Sep, Op::Foldl, Op::Foldr,
     Op::Validate, Op::RecVia, Op::RecSkipUntil, Op::RecSkipRetry, Op::RecNested, Op::Memo, Op::Label, Op::MapErr,
     Op::WithCtx, Op::ThenWithCtx, Op::IgnoreWithCtx, Op::MapCtx, Op::CtxJust, Op::CtxRep, Op::WithState, Op::Rec,
-    Op::Ref, Op::ExtWrap,
+    Op::Ref, Op::ExtWrap, Op::NestedIn,
 ];
 
 impl Op {
@@ -324,6 +326,7 @@ impl G {
             ThenWithCtx | IgnoreWithCtx => k[0].nullable() && k[1].nullable(),
             Rec => k[0].nullable(),
             Ref => false, // guarded recursion is enforced separately
+            NestedIn => k[1].nullable(),
         }
     }
 
@@ -466,6 +469,7 @@ impl G {
             Rec => format!("recursive(|r{}| {})", self.p.n, k[0]),
             Ref => format!("r{}", self.p.n),
             ExtWrap => format!("Ext(parse_or_check({}))", k[0]),
+            NestedIn => format!("{}.nested_in({}.to_slice())", k[0], k[1]),
         }
     }
 
